@@ -94,6 +94,7 @@ type scen struct {
 	nobody        *muxdrv.Key
 	vaultAddr     staking.Address
 	vault2Addr    staking.Address // 2-of-2 vault (accounts 6 and 7) with a pending action
+	keys          map[signature.PublicKey]*muxdrv.Key // every key the harness can sign with
 	setupFail     []string
 	opCost        map[transaction.MethodName][]uint64
 	known         map[transaction.MethodName]bool
@@ -152,6 +153,19 @@ func buildScenario(seed uint64, n int) (*scen, error) {
 	cn := *muxdrv.NewValidator(seed, 2)
 	cn.Entity = g.Validators[0].Entity // a second node (compute worker) of validator 0's entity
 	s.cnode = &cn
+	s.keys = map[signature.PublicKey]*muxdrv.Key{}
+	reg := func(ks ...*muxdrv.Key) {
+		for _, k := range ks {
+			s.keys[k.Public()] = k
+		}
+	}
+	for _, a := range g.Accounts {
+		reg(a.Key)
+	}
+	for _, vv := range append(append([]*muxdrv.Validator{}, g.Validators...), s.fresh, s.fresh2, s.cnode) {
+		reg(vv.Entity, vv.Node)
+	}
+	reg(s.nobody)
 	s.B, err = muxdrv.NewReplica(g, s.cfg("B"))
 	if err != nil {
 		return nil, err
@@ -264,6 +278,9 @@ func buildScenario(seed uint64, n int) (*scen, error) {
 			txs = append(txs, sign(acc[7].Key, func(n uint64) *transaction.Transaction {
 				return muxdrv.TxTransfer(n, fee(), s.vaultAddr, 5000)
 			}))
+			txs = append(txs, sign(acc[6].Key, func(n uint64) *transaction.Transaction {
+				return muxdrv.TxTransfer(n, fee(), s.vault2Addr, 5000)
+			}))
 			txs = append(txs, sign(s.cnode.Node, func(n uint64) *transaction.Transaction {
 				nd := muxdrv.NodeDescriptor(s.cnode, 1000, node.RoleComputeWorker)
 				nd.Runtimes = []*node.Runtime{{ID: s.rt1}}
@@ -279,10 +296,10 @@ func buildScenario(seed uint64, n int) (*scen, error) {
 					Action: vault.Action{UpdateWithdrawPolicy: &vault.ActionUpdateWithdrawPolicy{Address: acc[8].Address,
 						Policy: vault.WithdrawPolicy{LimitAmount: mustQ(1_000_000_000), LimitInterval: 1000}}}})
 			}))
-			// vault 2 (2-of-2): one of the two authorizations of a suspend action -> stays pending
+			// vault 2 (2-of-2): one of the two authorizations of an execute-message action -> stays pending
 			txs = append(txs, sign(acc[6].Key, func(n uint64) *transaction.Transaction {
 				return vault.NewAuthorizeActionTx(n, muxdrv.Fee(uint64(rng.Intn(60)), 4*muxdrv.DefaultGas), &vault.AuthorizeAction{Vault: s.vault2Addr, Nonce: 0,
-					Action: vault.Action{Suspend: &vault.ActionSuspend{}}})
+					Action: s.vault2Action()})
 			}))
 		case rtFillH + 1:
 			// a valid executor commitment of the (only) worker: the round finalizes in EndBlock
@@ -364,6 +381,13 @@ func buildScenario(seed uint64, n int) (*scen, error) {
 		}
 	}
 	return s, nil
+}
+
+// vault2Action is the action pending on the 2-of-2 vault: an ExecuteMessage (a staking.Transfer of
+// the vault's funds, executed as a subcall when the second authorization arrives).
+func (s *scen) vault2Action() vault.Action {
+	body := cbor.Marshal(&staking.Transfer{To: s.g.Accounts[0].Address, Amount: mustQ(10)})
+	return vault.Action{ExecuteMessage: &vault.ActionExecuteMessage{Method: staking.MethodTransfer, Body: body}}
 }
 
 // runtimeDesc is a minimal compute runtime: one executor worker, incoming message queue of
@@ -901,6 +925,7 @@ func (s *scen) runBurst(cs *Case, txsHex []string) (viol []string, n int, err er
 // ---------------------------------------------------------------- generator
 
 type gctx struct {
+	wantLabel string // when set, execFailing returns the class with this label
 	s   *scen
 	rng *prng.R
 	h   int
@@ -1353,8 +1378,18 @@ func (c *gctx) execFailingPick(roundRobin bool) built {
 		func() built {
 			return mk("vault/authorize-twice", acc[6].Key, func(n uint64, f *transaction.Fee) *transaction.Transaction {
 				f.Gas = 4 * muxdrv.DefaultGas
-				return vault.NewAuthorizeActionTx(n, f, &vault.AuthorizeAction{Vault: s.vault2Addr, Nonce: 0, Action: vault.Action{Suspend: &vault.ActionSuspend{}}})
+				return vault.NewAuthorizeActionTx(n, f, &vault.AuthorizeAction{Vault: s.vault2Addr, Nonce: 0, Action: s.vault2Action()})
 			})
+		},
+		func() built {
+			// the SECOND authorization: the action becomes executable, the inner transfer runs as a
+			// subcall. Succeeds with enough gas; always gas-swept (see sweepGas)
+			b := mk("vault/authorize-makes-executable", acc[7].Key, func(n uint64, f *transaction.Fee) *transaction.Transaction {
+				f.Gas = 4 * muxdrv.DefaultGas
+				return vault.NewAuthorizeActionTx(n, f, &vault.AuthorizeAction{Vault: s.vault2Addr, Nonce: 0, Action: s.vault2Action()})
+			})
+			b.hkind = 2
+			return b
 		},
 		func() built {
 			return mk("vault/authorize-different-action-same-nonce", acc[7].Key, func(n uint64, f *transaction.Fee) *transaction.Transaction {
@@ -1533,6 +1568,13 @@ func (c *gctx) execFailingPick(roundRobin bool) built {
 	)
 	// Round-robin over the catalogue (so that even a small run meets every class), the two
 	// generic generators get every fourth draw.
+	if c.wantLabel != "" {
+		for _, gf := range gens {
+			if b := gf(); b.label == c.wantLabel {
+				return b
+			}
+		}
+	}
 	if !roundRobin {
 		return gens[r.Intn(len(gens))]()
 	}
@@ -1710,6 +1752,58 @@ func (c *gctx) genCase() *Case {
 	}
 }
 
+// ---------------------------------------------------------------- gas sweep over every charging point
+
+// sweepGas re-issues the transaction of a finished case with fee.gas lowered to one below every
+// gas-charging point of its processing, discovered empirically: the response of a run that ran out
+// of gas reports the gas used BEFORE the refused charge, i.e. the cumulative cost of all earlier
+// charging points (transaction bytes, the handler's operations, inner subcalls of vault
+// ExecuteMessage actions and of messages). Starting from (gas used with ample gas) - 1 and
+// continuing with (reported gas used) - 1 visits every charging point from the last to the first.
+// Each re-issued transaction is an ordinary twin case: failed => only fee + nonce may differ.
+func sweepGas(s *scen, cs *Case, o *Obs, ti txInfo, doTwin func(*scen, *Case), last func() (*Obs, txInfo), sum *coqout.Summary) {
+	if o == nil || !ti.decoded || !ti.authPass || o.GasUsed <= 0 {
+		return
+	}
+	key := s.keys[ti.signer]
+	if key == nil {
+		return
+	}
+	raw0, _ := hex.DecodeString(cs.Tx)
+	handlerGas := o.GasUsed - int64(len(raw0)) // what the handler (incl. subcalls) charged with ample gas
+	if handlerGas < 0 {
+		handlerGas = 0
+	}
+	limit := o.GasUsed - 1
+	for i := 0; i < 8 && limit >= 0; i++ {
+		tx := ti.tx
+		fee := transaction.Fee{}
+		if tx.Fee != nil {
+			fee = *tx.Fee
+		}
+		fee.Gas = transaction.Gas(limit)
+		tx.Fee = &fee
+		c2 := *cs
+		c2.Tx = hex.EncodeToString(muxdrv.Sign(key, &tx))
+		c2.Label = "gas-point/" + cs.Label
+		c2.Stage = "exec"
+		c2.Costs = []uint64{uint64(handlerGas)}
+		c2.HKind = 2 // the model's handler: charge handlerGas, then succeed ...
+		if o.Failed {
+			c2.HKind = 0 // ... or fail, as the transaction did with ample gas
+		}
+		doTwin(s, &c2)
+		o2, _ := last()
+		sum.Count("gas_points_visited", fmt.Sprintf("point %d from the end", i+1))
+		// (a transaction may also SUCCEED with less gas: vault authorizeAction only records an inner
+		// out-of-gas in its event; the descent continues below what it used)
+		if o2 == nil || o2.GasUsed <= 0 || o2.GasUsed-1 >= limit || (o2.Failed && !strings.Contains(o2.Log, "out of gas")) {
+			break
+		}
+		limit = o2.GasUsed - 1
+	}
+}
+
 // ---------------------------------------------------------------- Coq cases
 
 func n(v uint64) string { return fmt.Sprintf("%d", v) }
@@ -1733,6 +1827,9 @@ func (s *scen) coqCase(cs *Case, ti txInfo, o *Obs) string {
 	if ti.decoded && s.known[ti.tx.Method] && len(cs.Costs) == 0 {
 		costs = nil
 	}
+	if strings.HasPrefix(cs.Label, "gas-point/") && !o.Failed {
+		costs = nil // it went through with less gas than estimated: the handler's verdict is an input
+	}
 	known := ti.decoded && s.known[ti.tx.Method]
 	minBal := s.g.Doc.Staking.Parameters.MinTransactBalance.ToBigInt()
 	byteCost := uint64(s.g.Doc.Consensus.Parameters.GasCosts["tx_byte"])
@@ -1741,6 +1838,9 @@ func (s *scen) coqCase(cs *Case, ti txInfo, o *Obs) string {
 	hk := cs.HKind
 	if !o.Failed && !strings.HasPrefix(cs.Label, "gas-sweep/") {
 		hk = 2
+	}
+	if s.blockGas > 0 && o.Failed && strings.Contains(o.Log, fmt.Sprintf("limit: %d ", s.blockGas)) {
+		hk = 0 // it ran out of BLOCK gas, which the model does not have: the verdict is an input
 	}
 	in := fmt.Sprintf("(%s, %s, %s, %s, %s, %s, %s, %s, %s, %s, %s, %s)",
 		n(o.NonceB), bigN(o.BalB), bigN(minBal), coqout.Bool(ti.decoded), coqout.Bool(known),
@@ -1761,6 +1861,7 @@ func main() {
 	bursts := flag.Int("bursts", 1, "CheckTx/EstimateGas bursts per scenario")
 	replay := flag.String("replay", "", "replay a case description")
 	verbose := flag.Bool("v", false, "")
+	sweepPct := flag.Int("sweep", 10, "percentage of cases whose gas limit is swept over every charging point")
 	probe := flag.Bool("probe", false, "print the setup results of one history and exit")
 	flag.Parse()
 	if *probe {
@@ -1793,6 +1894,8 @@ func main() {
 	}
 
 	var redo []*Case
+	var lastObs *Obs
+	var lastTi txInfo
 	doTwin := func(s *scen, cs *Case) {
 		o, ti, viol, err := s.runTwin(cs)
 		if err != nil {
@@ -1800,6 +1903,7 @@ func main() {
 			os.Exit(3)
 		}
 		evals++
+		lastObs, lastTi = o, ti
 		stageObs := "decode"
 		switch {
 		case !o.Failed:
@@ -1935,11 +2039,28 @@ func main() {
 					redo = redo[1:]
 					doTwin(s, c2)
 				}
+				if *sweepPct > 0 && s.blockGas == 0 && rng.Intn(100) < *sweepPct {
+					sweepGas(s, cs, lastObs, lastTi, doTwin, func() (*Obs, txInfo) { return lastObs, lastTi }, sum)
+				}
 				if len(pool) < 100 {
 					pool = append(pool, cs.Tx)
 				}
 			}
 			left -= k
+			if *sweepPct > 0 && s.blockGas == 0 {
+				// classes with inner subcalls are swept in every history without a block gas limit
+				for _, lab := range []string{"vault/authorize-makes-executable", "vault/execute-failing-message"} {
+					h := firstTwin + rng.Intn(s.N-firstTwin+1)
+					c := &gctx{s: s, rng: rng.Fork(), h: h, pre: kvMap(s.dumps[h-1]), wantLabel: lab}
+					b := c.execFailing()
+					if b.label != lab {
+						continue
+					}
+					cs := &Case{Kind: "twin", Seed: s.seed, Blocks: s.N, Height: c.h, Pos: 0, Tx: hex.EncodeToString(muxdrv.Sign(b.key, b.tx)), Label: b.label, Stage: "exec", HKind: b.hkind}
+					doTwin(s, cs)
+					sweepGas(s, cs, lastObs, lastTi, doTwin, func() (*Obs, txInfo) { return lastObs, lastTi }, sum)
+				}
+			}
 			for b := 0; b < *bursts; b++ {
 				h := firstTwin + rng.Intn(s.N-firstTwin+1)
 				c := &gctx{s: s, rng: rng.Fork(), h: h, pre: kvMap(s.dumps[h-1])}
